@@ -53,21 +53,7 @@ type vfC18Inst struct {
 // LastDeviations: which of several pending events NextPeerEvent hands out is map iteration order in the
 // library; the hook gives the choice to the explorer, which takes every alternative as a sibling event.
 func (in *vfC18Inst) LastDeviations() []string {
-	if strings.Contains(in.lastEv, "!") {
-		return nil
-	}
-	var out []string
-	for k, p := range in.lastPts {
-		if p.Kind != "event" {
-			continue
-		}
-		for v := 0; v < p.N; v++ {
-			if v != p.Def {
-				out = append(out, fmt.Sprintf("%s!%d=%d", in.lastEv, k, v))
-			}
-		}
-	}
-	return out
+	return vfDeviations(in.lastEv, in.lastPts, []string{"event"}, 0)
 }
 
 func vfC18New(x *vfExec, router string) *vfC18Inst {
